@@ -138,6 +138,10 @@ class Bip143(object):
             if els is not None:
                 sym[name] = ('buf', els)
                 return None
+            if isinstance(s.value, ast.Constant) and s.value.value is None:
+                # a sentinel: "no buffer yet" (tests on it are folded by the tracer)
+                sym.pop(name, None)
+                return None
             return 'unmodelled assignment `%s`' % norm(s)[:80]
         if isinstance(s, ast.For):
             if isinstance(s.target, ast.Name) and len(s.body) == 1 and isinstance(s.body[0], ast.AugAssign) \
